@@ -11,6 +11,7 @@
 -/
 import SqlizeModel.Generated.StrGo
 import SqlizeModel.Impl.Snake
+import SqlizeModel.Props.C16
 
 namespace Sqlize.Tie
 open Sqlize Sqlize.Snake
@@ -199,5 +200,30 @@ theorem translated_is_model (s : List Char) (hascii : ∀ c ∈ s, c.toNat < 128
   unfold Gen.Str.ToSnakeCase Snake.toSnake
   have := gen_fold s hascii s [] { sb := [], upperCount := 0, i := 0 } rfl rfl
   simpa using this
+
+theorem map_ofNat_toNat (l : List Char) : (l.map Char.toNat).map Char.ofNat = l := by
+  rw [List.map_map]
+  conv => rhs; rw [← List.map_id l]
+  apply List.map_congr_left
+  intro c _
+  simp [Function.comp]
+
+theorem map_toNat_inj {a b : List Char} (h : a.map Char.toNat = b.map Char.toNat) : a = b := by
+  have := congrArg (List.map Char.ofNat) h
+  rwa [map_ofNat_toNat, map_ofNat_toNat] at this
+
+/-- **C16 of the code as it reads now**: on ASCII input the output of the *translated* `ToSnakeCase` is accepted by the
+    executable placement predicate (clauses 1–5 of the statement) … -/
+theorem translated_obeys_rules (s : List Char) (hascii : ∀ c ∈ s, c.toNat < 128) :
+    SnakeSpec.snakeSpecOK s ((Gen.Str.ToSnakeCase (s.map Char.toNat)).map Char.ofNat) = true := by
+  rw [translated_is_model s hascii, map_ofNat_toNat]
+  exact (C16.main s).2.2.2.2.2.2
+
+/-- … and identifiers that differ by more than case / underscore placement never collide under it -/
+theorem translated_no_collision (a b : List Char) (ha : ∀ c ∈ a, c.toNat < 128) (hb : ∀ c ∈ b, c.toNat < 128)
+    (h : Gen.Str.ToSnakeCase (a.map Char.toNat) = Gen.Str.ToSnakeCase (b.map Char.toNat)) :
+    stripUnderscore (lowerS a) = stripUnderscore (lowerS b) := by
+  rw [translated_is_model a ha, translated_is_model b hb] at h
+  exact C16.noCollision a b (map_toNat_inj h)
 
 end Sqlize.Tie
